@@ -155,7 +155,9 @@ async fn dht_script(wi: u64, mut rng: Rng) -> anyhow::Result<(Vec<Ev>, Vec<Optio
             // never race a delivery against the request's own timeout
             if reqs.iter().any(|r| r.alive && r.uuid == uuid && r.deadline < Instant::now() + Duration::from_millis(350)) { continue; }
             tag += 1;
-            let resp = DhtNetworkMessage { message_id: uuid.clone(), source: "whoever".into(), target: None, message_type: DhtMessageType::Response,
+            // the body's `source` is attacker-controlled: half of the time it claims to be the contacted peer
+            let claimed = if rng.chance(1, 2) { c.peers[right_peer].0.clone() } else { "whoever".to_string() };
+            let resp = DhtNetworkMessage { message_id: uuid.clone(), source: claimed, target: None, message_type: DhtMessageType::Response,
                 payload: DhtNetworkOperation::Ping, result: Some(pong(tag)), timestamp: now_secs(), ttl: 3, hop_count: 1 };
             c.m.transport.verif_inject_frame(&from_id, SimNet::frame(&from_id, &resp)).await;
             quiesce(&c).await;
@@ -255,6 +257,7 @@ async fn rr_script(wi: u64, mut rng: Rng, flood: bool, cancel_flood: bool) -> an
     let mut reqs: Vec<RPending> = vec![];
     let mut known: Vec<(u64, String, usize)> = vec![];
     let mut next_id = 1u64; let mut tag = 1u64;
+    let mut sum_stalled_cancels = 0u64;
     let rr_seen = |net: &Arc<SimNet>| -> Vec<(String, String)> {
         // (to, message id) of /rr/ request envelopes that reached the wire
         net.trace_snapshot().iter().filter(|e| e.op.starts_with("/rr/")).map(|e| (e.to.clone(), e.msg_id.clone())).collect()
@@ -347,6 +350,25 @@ async fn rr_script(wi: u64, mut rng: Rng, flood: bool, cancel_flood: bool) -> an
             if let Ok(Ok(Ok(_))) = res { anyhow::bail!("rr request completed without a delivery"); }
             evs.push(REv::Finish(reqs[i].idx)); obs.push(ROut::None);
             sizes.push(rsize(&c, &reqs).await);
+        } else if choice == 11 && !flood {
+            // a request whose send is still in flight (the router stalls) is dropped: nothing of it may remain
+            let pi = rng.below(c.peers.len() as u64) as usize;
+            c.net.stall.lock().unwrap().insert(c.peers[pi].0.clone(), 250);
+            let wire_before = c.net.rr_ids.lock().unwrap().len();
+            let task = send(pi, &c);
+            let idx = next_id; next_id += 1;
+            let ok = wait_until(|| { let n = c.net.clone(); async move { n.rr_ids.lock().unwrap().len() > wire_before } }, Duration::from_secs(5)).await;
+            tokio::time::sleep(Duration::from_millis(20)).await;
+            let in_flight = ok && !task.is_finished();
+            task.abort(); let _ = task.await;
+            c.net.stall.lock().unwrap().clear();
+            tokio::time::sleep(Duration::from_millis(320)).await;
+            if in_flight {
+                evs.push(REv::Send(idx, pi as u64 + 1)); obs.push(ROut::None); sizes.push(999999);
+                evs.push(REv::Cancel(idx)); obs.push(ROut::None);
+                sizes.push(rsize(&c, &reqs).await);
+                sum_stalled_cancels += 1;
+            }
         } else if choice >= 10 && !live.is_empty() {
             let i = live[rng.below(live.len() as u64) as usize];
             reqs[i].task.abort(); reqs[i].alive = false;
@@ -373,7 +395,7 @@ async fn rr_script(wi: u64, mut rng: Rng, flood: bool, cancel_flood: bool) -> an
     tokio::time::sleep(Duration::from_millis(20)).await;
     if let Some(l) = sizes.last_mut() { *l = rsize(&c, &reqs).await; }
     let n = evs.len();
-    let desc = json!({"kind": if flood { "rr-table-flood" } else { "rr-table" }, "n_events": n,
+    let desc = json!({"kind": if flood { "rr-table-flood" } else { "rr-table" }, "n_events": n, "cancelled_while_send_in_flight": sum_stalled_cancels,
         "events": evs.iter().take(40).map(coq_rev).collect::<Vec<_>>(), "observed": obs.iter().take(40).map(coq_rout).collect::<Vec<_>>(),
         "sizes_tail": sizes.iter().rev().take(8).collect::<Vec<_>>()});
     let _ = tokio::time::timeout(Duration::from_secs(20), c.m.manager.stop()).await;
